@@ -105,8 +105,11 @@ def inputs_strategy(draw, spec, rm, N, vectorize):
     return out
 
 
-def base_case(draw, max_depth_choices=(0, 0, 1, 2)):
-    spec = draw(gen.model_spec({"leak": True, "max_types": 2, "max_ops": 2, "max_nodes": 5, "max_edges": 4,
+def base_case(draw, max_depth_choices=(0, 0, 1, 2), many=False):
+    """many: 10-12 nodes of one type - an input that addresses all of them leaves the matrix-product realisation of the
+    input edges (default matrix_sparseness 0.1) for the indexed one"""
+    spec = draw(gen.model_spec({"leak": True, "max_types": 1 if many else 2, "max_ops": 2, "max_nodes": 12 if many else 5,
+                                "min_nodes": 10 if many else 1, "max_edges": 4,
                                 "expr_depth": 2, "max_alg": 1, "max_in": 2, "depths": list(max_depth_choices),
                                 "collision": False, "funcs": ["sin", "cos", "tanh", "sigmoid", "arctan"],
                                 "pow": False}))
@@ -142,6 +145,8 @@ def common_labels(case, rm):
             lab.append("multi_target")
         if inp["kind"] == "1d" and inp["n_addressed"] >= 2:
             lab.append("broadcast")
+        if inp["n_addressed"] >= 10:
+            lab.append("addressed>=10:" + inp["kind"])
     ext_targets = set(expand_inputs(case["spec"], rm, case["inputs"]))
     if any(t in rm.in_edges or t in rm.wiring for t in ext_targets):
         lab.append("input_plus_edge_on_one_variable")
@@ -157,16 +162,17 @@ class FixedArm(Arm):
     budget = {"quick": 400, "thorough": 6000}
     min_per_shard = 20
     required_labels = ("shape:1d", "shape:col1", "shape:cols", "wildcard", "broadcast",
-                       "input_plus_edge_on_one_variable", "heun", "euler", "depth=1")
+                       "input_plus_edge_on_one_variable", "heun", "euler", "depth=1", "addressed>=10:1d", "addressed>=10:cols")
 
     def strategy(self, ctx):
         @st.composite
         def case(draw):
-            spec = base_case(draw)
+            many = draw(st.integers(0, 5)) == 0
+            spec = base_case(draw, many=many)
             rm = RefModel(spec)
             spec, rm = ensure_input(spec, rm)
             steps = draw(st.integers(8, 40))
-            vec = draw(st.booleans())
+            vec = True if many else draw(st.booleans())
             extra = draw(st.integers(0, 3))
             inputs = draw(inputs_strategy(spec, rm, steps + extra, vec))
             return {"spec": spec, "inputs": inputs,
